@@ -65,6 +65,11 @@ type referenceTracker struct {
 	tracked map[string]string
 	added   map[string]string
 	deleted map[string]string
+
+	// table and row pairs whose references have been initialized: a reference
+	// column can name the UUID of a row of another table than the one it
+	// refers to
+	initialized map[[2]string]bool
 }
 
 func newReferenceTracker(dbModel model.DatabaseModel, provider ReferenceProvider) *referenceTracker {
@@ -77,6 +82,7 @@ func newReferenceTracker(dbModel model.DatabaseModel, provider ReferenceProvider
 func (rt *referenceTracker) processReferences(updates ModelUpdates) (ModelUpdates, ModelUpdates, database.References, error) {
 	rt.updates = updates
 	rt.tracked = make(map[string]string)
+	rt.initialized = make(map[[2]string]bool)
 	rt.added = make(map[string]string)
 	rt.deleted = make(map[string]string)
 	rt.references = make(database.References)
@@ -442,7 +448,7 @@ func copyMapKeyValues(from, to map[interface{}]interface{}, isKey bool, keyValue
 // initReferences initializes the references to the provided row from the
 // database
 func (rt *referenceTracker) initReferences(table, uuid string) error {
-	if _, ok := rt.tracked[uuid]; ok {
+	if t, ok := rt.tracked[uuid]; (ok && t == table) || rt.initialized[[2]string{table, uuid}] {
 		// already initialized
 		return nil
 	}
@@ -451,8 +457,23 @@ func (rt *referenceTracker) initReferences(table, uuid string) error {
 		return err
 	}
 	rt.references.UpdateReferences(existingRefs)
-	rt.tracked[uuid] = table
+	rt.initialized[[2]string{table, uuid}] = true
+	if _, ok := rt.tracked[uuid]; !ok || isStrongTarget(existingRefs, &rt.dbModel) {
+		// when the UUID is also named by a reference to another table, it
+		// is the table in which it is strongly referenced that holds the row
+		rt.tracked[uuid] = table
+	}
 	return nil
+}
+
+// isStrongTarget returns whether any of the references is a strong one
+func isStrongTarget(refs database.References, dbModel *model.DatabaseModel) bool {
+	for spec, to := range refs {
+		if len(to) > 0 && isStrong(dbModel, spec) {
+			return true
+		}
+	}
+	return false
 }
 
 func (rt *referenceTracker) initReferencesOfDeletedRows() error {
